@@ -14,7 +14,7 @@ CFG = {
                   "cap+1 other worker steps are possible (Go's select picks ready clauses at random, so termination is "
                   "with probability 1, not under every schedule).",
     "lean_props": ["BtcwVerif.Props.C18", "BtcwVerif.Props.C18Loops"],
-    "engines": ["queue"],
+    "engines": ["queue", "btcdnotif"],
     "extractors": [{"name": "queue", "out": "QueueGen.lean"}, {"name": "notifloop", "out": "NotifLoopGen.lean"}],
     "trusted_base": COMMON_TB + [
         "the table interpreter Queue.wstep in BtcwVerif/Model/Queue.lean as semantics of Go select/channels/container-list "
@@ -22,8 +22,10 @@ CFG = {
         "the extractor harness/cmd/vxextract/queue.go (go/ast) producing Gen/QueueGen.lean; tied by C18_generated_table (decide)",
         "the Go runtime: scheduler, select fairness, channel implementation, container/list",
         "btcd.go / neutrino.go handler loops (their own slice queue, not ConcurrentQueue): hand model "
-        "BtcwVerif/Model/NotifLoop.lean tied ONLY by the idiom-recognising extractor harness/cmd/vxextract/notifloop.go "
-        "(C18_loops_generated, decide); no run on the real loops (they need a live btcd / neutrino service)",
+        "BtcwVerif/Model/NotifLoop.lean tied by the idiom-recognising extractor harness/cmd/vxextract/notifloop.go "
+        "(C18_loops_generated, decide); the btcd.go loop is additionally run for real (engine btcdnotif: real "
+        "chain.RPCClient against an in-process fake btcd websocket server); the neutrino.go loop is not run "
+        "(needs a neutrino chain service) - its clause table differs from btcd's only by the log-only rescanErr clause",
     ],
     "assumptions": [
         "one consumer (the delivered sequence is what that consumer receives); any number of producers (their sends are "
